@@ -35,6 +35,10 @@ class Stream:
     def nontrivial(self, op, impl):
         return not impl.startswith("err") and impl != "bad-op"
 
+    def distinct_key(self, op, impl):
+        """what identifies a case for the distinct_nontrivial count (stateful streams may add the result)"""
+        return op
+
     def norm_impl(self, op, impl):
         return impl.split("!VIOL:", 1)[0]
 
@@ -209,7 +213,7 @@ def run_check(chk, tier, seed, replay=None):
             k = o.split("\t", 1)[0] + ("" if st.nontrivial(o, a) else ":trivial")
             kinds[k] = kinds.get(k, 0) + 1
             if st.nontrivial(o, a):
-                h = hash(o)
+                h = hash(st.distinct_key(o, a))
                 if (sname, h) not in distinct:
                     distinct.add((sname, h)); nt += 1
         concrete += eval_predicates(st, d["ops"], d["impl"])
@@ -238,39 +242,58 @@ def run_check(chk, tier, seed, replay=None):
         samples += ex.get("samples", [])
 
     # (5) decide
-    if broken and not concrete:
+    known = core.load_known()
+
+    def known_entry(c):
+        sig = c.get("signature")
+        if sig is None:
+            return None
+        for f in known.get("findings", []):
+            if f["property"] == pid and f["signature"] == sig and f.get("stream", c.get("stream")) == c.get("stream"):
+                return f
+        return None
+
+    lines = []
+    nviol = 0
+    known_hit = []
+
+    def classify(cs):
+        fresh = []
+        for c in cs:
+            kf = known_entry(c)
+            if kf:
+                if kf["id"] not in known_hit:
+                    known_hit.append(kf["id"])
+                    lines.append("KNOWN-FINDING: property=%s %s: %s" % (pid, kf["id"], kf["what"]))
+            else:
+                fresh.append(c)
+        return fresh
+
+    fresh = classify(concrete)
+    if broken and not fresh:
+        # an obligation or a correspondence no longer checks and no NEW failing input is at hand: search for one
+        # (known findings never excuse a broken obligation / correspondence)
         try:
             found = chk.search(ctx, broken) or []
         except Exception:
             found = []
             log("search failed:\n" + traceback.format_exc())
-        concrete += found
-    known = core.load_known()
-    lines = []
-    nviol = 0
-    known_hit = []
-    seen_sig = set()
-    for i, c in enumerate(concrete):
-        sig = c.get("signature")
-        kf = None
-        for f in known.get("findings", []):
-            if f["property"] == pid and sig is not None and f["signature"] == sig:
-                kf = f
-        if kf:
-            if kf["id"] not in seen_sig:
-                seen_sig.add(kf["id"])
-                known_hit.append(kf["id"])
-                lines.append("KNOWN-FINDING: property=%s %s: %s" % (pid, kf["id"], kf["what"]))
-            continue
-        if nviol >= 3:
+        fresh = classify(found)
+    seen_what = set()
+    for c in fresh:
+        key = (c.get("stream"), c.get("what"), c.get("signature"))
+        if key in seen_what:       # one replay per distinct kind of failure
             nviol += 1
             continue
-        p = core.write_replay(pid, seed, nviol, {"property": pid, "kind": "concrete-failing-input",
-                                                "seed": int(seed), "tier": tier, **c})
+        seen_what.add(key)
+        if len(seen_what) > 3:
+            nviol += 1
+            continue
+        p = core.write_replay(pid, seed, len(seen_what) - 1, {"property": pid, "kind": "concrete-failing-input",
+                                                              "seed": int(seed), "tier": tier, **c})
         lines.append("VIOLATION property=%s replay=%s" % (pid, p))
         nviol += 1
     if broken and nviol == 0:
-        # known findings never excuse a broken obligation / correspondence that yields no input
         p = core.write_replay(pid, seed, 0, {"property": pid, "kind": "no-failing-input-found",
                                              "seed": int(seed), "tier": tier, "broken": broken[:20]})
         lines.append("VIOLATION property=%s replay=%s no-failing-input-found" % (pid, p))
